@@ -75,8 +75,14 @@ func runC16(c *Ctx) {
 	for _, s := range seeds {
 		impl := evalVerify(c, "C16", "both", s.name, s.blob, s.cert, "signer")
 		_ = impl
-		for k, oc := range otherCerts(s, rng) {
+		others := otherCerts(s, rng)
+		for k, oc := range others {
 			evalVerify(c, "C16", "both", s.name, s.blob, oc, k)
+		}
+		// the same verdicts when the parsed object has verified other certificates before
+		if twin := others["same-issuer-serial-other-key"]; twin != nil {
+			evalVerify(c, "C16", "both", s.name+"/after-signer", s.blob, twin, "same-issuer-serial-other-key", s.cert)
+			evalVerify(c, "C16", "both", s.name+"/after-twin", s.blob, s.cert, "signer", twin)
 		}
 		o := c.Impl("p7_parse", hx(s.blob))
 		f := o.Fields
